@@ -142,7 +142,47 @@ def official_words():
     return ws
 
 
+def exception_safety(rng, tier, info):
+    """every public function of the module is called with arguments that make it FAIL (non-integer sizes equal to or
+    near a legal size, wrong types), and after each failed call a battery of wrong-size entropies must still be
+    refused and a legal one still be encoded correctly: a failed call must leave nothing behind"""
+    from decimal import Decimal
+    from fractions import Fraction
+    import btc_hd_wallet.bip39 as b39
+    rb = lambda n: bytes(rng.getrandbits(8) for _ in range(n))
+    bad_args = []
+    for bits in (128, 160, 256):
+        bad_args += [float(bits), Decimal(bits), Fraction(bits), bits + 0.5, str(bits), None, [bits], bits * 1j]
+    bad_args += [136, 0, -128, 255.0, True]
+    funcs = [("mnemonic_from_entropy_bits", lambda a: b39.mnemonic_from_entropy_bits(a)),
+             ("mnemonic_sentence_length", lambda a: b39.mnemonic_sentence_length(a)),
+             ("checksum_length", lambda a: b39.checksum_length(a)),
+             ("correct_entropy_bits_value", lambda a: b39.correct_entropy_bits_value(a)),
+             ("mnemonic_from_entropy", lambda a: b39.mnemonic_from_entropy(a))]
+    n = 0
+    for name, f in funcs:
+        for a in (bad_args if tier == "thorough" else rng.sample(bad_args, 9)):
+            try:
+                with impl._Urandom(bytes(range(64))):
+                    f(a)
+                failed = False
+            except Exception:
+                failed = True
+            n += 1
+            probes = ["mn_from_ent " + sx(rb(k).hex()) for k in (17, 0, 33, rng.choice([1, 15, 31, 40, 64]))]
+            probes.append("mn_from_ent " + sx(rb(rng.choice(SIZES)).hex()))
+            for line in probes:
+                out = impl.run(line)
+                msg = oracle(line, out)
+                if msg:
+                    yield ("# %s(%r) %s, then: %s" % (name, a, "raised" if failed else "returned", line),
+                           "after that call: " + msg)
+                    return
+    info["exception_safety_calls"] = n
+
+
 def extra_checks(rng, tier, g, info):
+    yield from exception_safety(rng, tier, info)
     wl = words()
     digest = hashlib.sha256(("\n".join(wl) + "\n").encode()).hexdigest()
     info["wordlist_sha256"] = digest
